@@ -38,7 +38,9 @@ class _LinMeasurement:
 
         self.h = np.array(h)
         self.angular_values = [IsAngle.NOT_ANGLE] * self.h.shape[0]
-        self.labels = [f"z{i}" for i in range(self.h.shape[0])]
+        # channel names whose declared order is not the alphabetical one (a measurement's channels are an ordered list; real
+        # sensors happen to declare theirs alphabetically)
+        self.labels = [f"ch{(7 * i + 3) % 11:02d}" for i in range(self.h.shape[0])]
 
     def calculateMeasurement(self, sen_eci_state, tgt_eci_state, utc_date, noisy=False):
         return dict(zip(self.labels, self.h @ np.asarray(tgt_eci_state)))
